@@ -62,6 +62,14 @@ class AbstractOnlineResetVisitor(AbstractAstVisitor):
 class AbstractOnlineUpdateVisitor(AbstractAstVisitor):
     def __init__(self):
         self.results = dict()
+        self.updated = dict()
+
+    def visitAst(self, ast, *args, **kwargs):
+        # Online operators are stored by node name, so sub-formulas with the same
+        # text - and a sub-specification that is referenced from another
+        # specification - share one stateful operator. Step it once per update.
+        self.updated = dict()
+        return super(AbstractOnlineUpdateVisitor, self).visitAst(ast, *args, **kwargs)
 
     def visitSpec(self, node, online_operator_dict, var_object_dict):
         sample_return = self.visit(node, online_operator_dict, var_object_dict)
@@ -70,17 +78,25 @@ class AbstractOnlineUpdateVisitor(AbstractAstVisitor):
         return sample_return
 
     def visitBinary(self, node, online_operator_dict, var_object_dict):
-        sample_left  = self.visit(node.children[0], online_operator_dict, var_object_dict)
-        sample_right = self.visit(node.children[1], online_operator_dict, var_object_dict)
-        operator = online_operator_dict[node.name]
-        sample_return = operator.update(sample_left, sample_right)
+        if node.name in self.updated:
+            sample_return = self.updated[node.name]
+        else:
+            sample_left  = self.visit(node.children[0], online_operator_dict, var_object_dict)
+            sample_right = self.visit(node.children[1], online_operator_dict, var_object_dict)
+            operator = online_operator_dict[node.name]
+            sample_return = operator.update(sample_left, sample_right)
+            self.updated[node.name] = sample_return
         self.results[node] = sample_return
         return sample_return
 
     def visitUnary(self, node, online_operator_dict, var_object_dict):
-        sample = self.visit(node.children[0], online_operator_dict, var_object_dict)
-        op = online_operator_dict[node.name]
-        sample_return = op.update(sample)
+        if node.name in self.updated:
+            sample_return = self.updated[node.name]
+        else:
+            sample = self.visit(node.children[0], online_operator_dict, var_object_dict)
+            op = online_operator_dict[node.name]
+            sample_return = op.update(sample)
+            self.updated[node.name] = sample_return
         self.results[node] = sample_return
         return sample_return
 
